@@ -83,6 +83,11 @@ def stable(v):
                            for k, x in v.items()) + '}'
   if isinstance(v, (set, frozenset)):
     return 'set(' + ', '.join(sorted(stable(x) for x in v)) + ')'
+  tn = type(v).__name__
+  if tn == 'ConfigurableReference':
+    return '@%s%s' % (v.scoped_selector, '()' if v.evaluate else '')
+  if tn == '_UnknownConfigurableReference':
+    return '@?%s%s' % (v.selector, '()' if v.evaluate else '')
   if isinstance(v, BaseException):
     return '%s(%s)' % (type(v).__name__, stable(str(v))[:200])
   if isinstance(v, type):
